@@ -939,6 +939,9 @@ type c02Shared struct {
 	// Slow: the client of a GET is slow - its connection accepts the body only after the other
 	// request has been answered (X = GET: Y is started at the latest when X begins to write)
 	Slow bool `json:"slow_client,omitempty"`
+	// SameHash: Y is a second PUT of X's block (a client's retry racing with its first attempt)
+	// whose client hangs up at the moment X is answered
+	SameHash bool `json:"same_hash,omitempty"`
 	Serialize bool   `json:"serialize"`
 	K         int    `json:"k"`
 	Bound     int    `json:"bound"`
@@ -954,6 +957,9 @@ func (c c02Shared) name() string {
 	}
 	if c.Slow {
 		n += " slow-client"
+	}
+	if c.SameHash {
+		n += " Y=PUT-same-block-abandoned"
 	}
 	return n
 }
@@ -1061,11 +1067,24 @@ func c02SharedRun(r *vrep.Report, base string, c c02Shared) (int, int64) {
 		// X and Y are judged once both have been ANSWERED; whether their handlers also return is
 		// recorded, not demanded (the statement is about what an answered PUT leaves on disk)
 		retX, retY := false, false
+		cancelY := make(chan bool, 1)
 		started := false
 		startY := func() {
 			started = true
 			vsched.GoNamed("PUT-Y", func() {
 				rw := &c02RW{onCode: func(code int) { codeY = code }}
+				if c.SameHash {
+					crw := &c02CancelRW{}
+					crw.onCode = func(code int) { codeY = code }
+					crw.cn = cancelY
+					e.rtr.ServeHTTP(crw, httptest.NewRequest("PUT", "/"+HX, bytes.NewReader(X)))
+					codeY = crw.code
+					if codeY == 0 {
+						codeY = -1 // returned without answering (the client was gone)
+					}
+					retY = true
+					return
+				}
 				if c.YGet {
 					rw.point = true
 					if c.Slow {
@@ -1090,7 +1109,16 @@ func c02SharedRun(r *vrep.Report, base string, c c02Shared) (int, int64) {
 			startY()
 		}
 		vsched.GoNamed("PUT-X", func() {
-			rw := &c02RW{onCode: func(code int) { codeX = code; npts = len(vfs.ExecPoints()) }}
+			rw := &c02RW{onCode: func(code int) {
+				codeX = code
+				npts = len(vfs.ExecPoints())
+				if c.SameHash {
+					select {
+					case cancelY <- true:
+					default:
+					}
+				}
+			}}
 			if c.XGet {
 				rw.point = true
 				if c.Slow {
@@ -1178,6 +1206,13 @@ func c02SharedRun(r *vrep.Report, base string, c c02Shared) (int, int64) {
 		if c.YGet {
 			jY, jHY, codeY = W, HW, 0
 		}
+		if c.SameHash {
+			// Y wrote (or abandoned writing) X's block: judged as X, acknowledged if either was
+			jY, jHY = X, HX
+			if codeY != 200 {
+				codeY = 0
+			}
+		}
 		outX, shapeX, badX := c02Judge(scn, roots, init, jX, jHX, codeX)
 		outY, _, badY := c02Judge(scn, roots, init, jY, jHY, codeY)
 		r.Outcome("shared:X:" + outX)
@@ -1207,6 +1242,12 @@ func c02SharedScenarios() []c02Shared {
 	bound := 1
 	if vrep.Thorough() {
 		bound = 2
+	}
+	{
+		// (C02 and C01 alike: "once it is acknowledged an intact copy is retrievable")
+		for _, ser := range []bool{false, true} {
+			out = append(out, c02Shared{Kind: "shared", Prelude: "none", SizeY: 5, Serialize: ser, Bound: bound + 1, SameHash: true})
+		}
 	}
 	for _, pre := range []string{"aborted-mid", "aborted-start", "none", "wrong-content", "get404"} {
 		for _, sy := range []int{5, 3} {
